@@ -215,4 +215,70 @@ theorem write_aligned_len (b : BufW) (p : Bytes) (ha : b.aligned = true) (h : b.
           (by simp only [List.length_append, List.length_take, BufW.avail]; omega)
         exact this
 
+theorem run_buf_le (b : BufW) (ops : List BufOp) (h : b.buf.length ≤ b.size) :
+    (b.run ops).1.buf.length ≤ b.size := by
+  induction ops generalizing b with
+  | nil => exact h
+  | cons op ops ih =>
+    cases op with
+    | write p =>
+      simp only [BufW.run]
+      have := ih (b.write p).1 (by rw [write_size]; exact write_buf_le b p h)
+      rw [write_size] at this; exact this
+    | flush =>
+      simp only [BufW.run]
+      have := ih b.flush.1 (by rw [flush_buf]; simp)
+      rw [flush_size] at this; exact this
+
+/-- aligned mode, every write at most one buffer long: every chunk handed down is exactly one buffer -/
+theorem run_aligned_len (b : BufW) (ops : List BufOp) (ha : b.aligned = true) (h : b.buf.length ≤ b.size)
+    (hp : ∀ p, BufOp.write p ∈ ops → p.length ≤ b.size) : ∀ ch ∈ (b.run ops).2, ch.length = b.size := by
+  induction ops generalizing b with
+  | nil => simp [BufW.run]
+  | cons op ops ih =>
+    cases op with
+    | write p =>
+      simp only [BufW.run]
+      intro ch hch
+      rw [List.mem_append] at hch
+      rcases hch with hch | hch
+      · exact write_aligned_len b p ha h (hp p (by simp)) ch hch
+      · have := ih (b.write p).1 (by rw [write_aligned]; exact ha)
+          (by rw [write_size]; exact write_buf_le b p h)
+          (by intro q hq; rw [write_size]; exact hp q (by simp [hq])) ch hch
+        rw [write_size] at this; exact this
+    | flush =>
+      simp only [BufW.run]
+      intro ch hch
+      rw [List.mem_append] at hch
+      rcases hch with hch | hch
+      · exact flush_aligned_len b ha h ch hch
+      · have := ih b.flush.1 (by rw [flush_aligned]; exact ha) (by rw [flush_buf]; simp)
+          (by intro q hq; rw [flush_size]; exact hp q (by simp [hq])) ch hch
+        rw [flush_size] at this; exact this
+
+/-- every boundary between chunks lies at a prefix of the logical stream -/
+theorem run_prefix (b : BufW) (ops : List BufOp) (ha : b.aligned = false) (k : Nat) :
+    ((b.run ops).2.take k).flatten <+: b.buf ++ BufOp.logical ops := by
+  rw [← run_transp b ops ha]
+  refine List.IsPrefix.trans ?_ (List.prefix_append _ _)
+  conv => rhs; rw [← List.take_append_drop k (b.run ops).2]
+  rw [List.flatten_append]; exact List.prefix_append _ _
+
+theorem logical_append (xs ys : List BufOp) :
+    BufOp.logical (xs ++ ys) = BufOp.logical xs ++ BufOp.logical ys := by
+  induction xs with
+  | nil => rfl
+  | cons op xs ih => cases op <;> simp [BufOp.logical, ih]
+
+/-- after a `Flush` nothing is buffered and the underlying writer has received the whole logical stream -/
+theorem run_then_flush (b : BufW) (ops : List BufOp) (ha : b.aligned = false) :
+    (b.run (ops ++ [.flush])).1.buf = [] ∧
+    (b.run (ops ++ [.flush])).2.flatten = b.buf ++ BufOp.logical ops := by
+  have h1 := run_transp b (ops ++ [.flush]) ha
+  have h2 : (b.run (ops ++ [.flush])).1.buf = [] := by
+    rw [run_append]; simp only [BufW.run]; exact flush_buf _
+  rw [h2, List.append_nil, logical_append] at h1
+  exact ⟨h2, by rw [h1]; simp [BufOp.logical]⟩
+
 end SST.Proofs
